@@ -294,13 +294,17 @@ def openStep (cfg : PartCfg) (s : DC) (x : Xml) (inCell : Bool) (roots : List (L
   | some "TAB" => withTrue (s.insertNewRun cfg.html ['\t'])
   | _ => pure (s, true)
 
-/-- `TagRunner.close` before the final `set_caret` -/
-def closeStep (cfg : PartCfg) (s : DC) (x : Xml) : M DC :=
+/-- the handler part of `TagRunner.close` -/
+def closeStepCore (cfg : PartCfg) (s : DC) (x : Xml) : M DC :=
   match tagMember x.ptag with
   | some "PARAGRAPH" => s.concludePar
   | some "RUN" => s.commenceRun cfg.html none
   | some "TABLE_CELL" => closeTableCell cfg.dup s x
   | _ => pure s
+
+/-- `TagRunner.close` before the final `set_caret`: an implicit paragraph ends with the block that encloses it -/
+def closeStep (cfg : PartCfg) (s : DC) (x : Xml) : M DC :=
+  (s.flushImplicit (elemDepth x)) >>= fun s0 => closeStepCore cfg s0 x
 
 /-- tail of `new_depth_collector` -/
 def finish (cfg : PartCfg) (s : DC) : M DC :=
@@ -312,7 +316,7 @@ mutual
 /-- `branches(tree)` -/
 def walk (cfg : PartCfg) (num : Dict Str (List NumAttr)) (inCell : Bool) (s : DC) : Xml → M DC
   | .elem i p t m a tx tl ks =>
-    (s.setCaret (elemDepth (.elem i p t m a tx tl ks)) (some t.name)) >>= fun s1 =>
+    (s.setCaretOpen (elemDepth (.elem i p t m a tx tl ks)) (some t.name)) >>= fun s1 =>
     (if (Xml.elem i p t m a tx tl ks).ptag == hyperlinkTag
       then textBelowL cfg num (inCell || isCellTag (.elem i p t m a tx tl ks)) ks else pure []) >>= fun roots =>
     (openStep cfg s1 (.elem i p t m a tx tl ks) inCell roots) >>= fun r =>
